@@ -1,5 +1,5 @@
 """C16 - richness and overlap estimators follow their closed forms."""
-import itertools, math
+import itertools, math, os, random
 from fractions import Fraction
 import numpy as np
 import pandas as pd
@@ -12,12 +12,727 @@ def _cmp_val(impl, wire):
     if impl[0] == 'exc':
         return tag == 2
     x = impl[1]
-    x = float(x)
+    try:
+        x = float(x)
+    except Exception:       # not a number at all (None, a string, an array)
+        return False
     if tag == 1:
         return math.isnan(x)
     if tag == 2:
         return False
     return close(x, q)
+
+
+def _is_count(x, n):
+    """overlap returns the number |A n B| itself (2.7 is not 2)."""
+    try:
+        return not isinstance(x, (str, bytes)) and bool(x == n)
+    except Exception:
+        return False
+
+
+# =====================================================================================================================
+# Wide families (coverage audit).  Everything below realises inputs DETERMINISTICALLY from a small record (tokens /
+# counts + a spec dict), so that a failing case is replayed from the record alone.
+# =====================================================================================================================
+
+# ---- count vectors: containers / dtypes ------------------------------------------------------------------------------
+_COUNT_CONTS = ['tuple', 'list_float', 'list_np64', 'list_np32', 'nd_int32', 'nd_int16', 'nd_uint8', 'nd_uint64',
+                'nd_float64', 'nd_object', 'nd_strided', 'nd_readonly', 'series_int', 'series_float']
+_COUNT_INT = {'list_np64': np.int64, 'list_np32': np.int32, 'nd_int64': np.int64, 'nd_int32': np.int32,
+              'nd_int16': np.int16, 'nd_uint8': np.uint8, 'nd_uint64': np.uint64, 'nd_strided': np.int64,
+              'nd_readonly': np.int64, 'series_int': np.int64}
+
+
+def _mk_counts(v, cont):
+    v = list(v)
+    if cont == 'list':
+        return v
+    if cont == 'tuple':
+        return tuple(v)
+    if cont == 'list_float':
+        return [float(x) for x in v]
+    if cont == 'list_np64':
+        return [np.int64(x) for x in v]
+    if cont == 'list_np32':
+        return [np.int32(x) for x in v]
+    if cont == 'nd_object':
+        a = np.empty(len(v), dtype=object)
+        a[:] = v
+        return a
+    if cont == 'nd_strided':                      # a non-contiguous view
+        big = np.full(2 * len(v), 999, dtype=np.int64)
+        big[::2] = v
+        return big[::2]
+    if cont == 'nd_readonly':
+        a = np.array(v, dtype=np.int64)
+        a.setflags(write=False)
+        return a
+    if cont.startswith('nd_'):
+        return np.array(v, dtype=getattr(np, cont[3:]))
+    if cont == 'series_int':                      # default RangeIndex: label = position
+        return pd.Series(v, dtype='int64')
+    if cont == 'series_float':
+        return pd.Series(v, dtype='float64')
+    raise ValueError(cont)
+
+
+def _count_fit(v, cont):
+    """'no' - the vector is not representable in the container's integer type; 'exact' - every intermediate of the
+    closed forms (f1^2, f1(f1-1), 2 f2) is representable too; 'wraps' - representable, but an intermediate is not."""
+    dt = _COUNT_INT.get(cont)
+    if dt is None and cont in ('list_float', 'nd_float64', 'series_float'):
+        return 'exact' if max(v) < 2 ** 53 else 'no'
+    # Python ints (list, tuple, object array) are exact at any size today; they are nevertheless held to the int64 range,
+    # so that a harmless np.asarray(counts) is not reported for magnitudes no repertoire has
+    hi = int(np.iinfo(dt or np.int64).max)
+    if max(v) > hi:
+        return 'no'
+    f1, f2 = v[0], (v[1] if len(v) > 1 else 0)
+    return 'exact' if max(f1 * f1, f1 * (f1 - 1), 2 * f2) <= hi else 'wraps'
+
+
+_COUNT_FUNCS = {'chao1': ('api_spec_chao1', False), 'var_chao1': ('api_spec_var_chao', False),
+                'chao2': ('api_spec_chao2', True), 'var_chao2': ('api_spec_var_chao', True)}
+
+
+def _m_value(m):
+    """m as handed to the implementation: [kind, value]."""
+    kind, val = m
+    return {'int': int, 'float': float, 'np64': np.int64}[kind](val)
+
+
+def _call_count(prs, name, arg, m, style):
+    f = getattr(prs, name)
+    if _COUNT_FUNCS[name][1]:
+        mv = _m_value(m)
+        if style == 'kw':
+            return call_impl(f, counts=arg, m=mv)
+        if style == 'kwm':
+            return call_impl(f, arg, m=mv)
+        return call_impl(f, arg, mv)
+    if style == 'kw':
+        return call_impl(f, counts=arg)
+    return call_impl(f, arg)
+
+
+def _check_count(ctx, prs, name, v, cont, m, style, spec, family, arg=None, gen=None):
+    """One call of one Chao function against the closed form (spec from the oracle).  Returns True when it agrees."""
+    if arg is None:
+        arg = _mk_counts(v, cont)
+    impl = _call_count(prs, name, arg, m, style)
+    nontriv = (v[0] > 0 and spec[0] == 0 and spec[1] != sum(v))
+    short = v if len(v) <= 12 else v[:12] + ['... (%d entries)' % len(v)]
+    ctx.case(nontrivial_key=(name, tuple(v), cont, tuple(m), style) if nontriv else None)
+    if not _cmp_val(impl, spec):
+        ctx.violation('property', '%s(%s as %s%s) = %s but the closed form gives %s  [family %s]' %
+                      (name, short, cont, (', m=%r %s' % (_m_value(m), style)) if _COUNT_FUNCS[name][1] else
+                       (' by keyword' if style == 'kw' else ''), impl, 'NaN' if spec[0] == 1 else spec[1], family),
+                      dict(family='counts', func=name, counts=v, container=cont, m=list(m), style=style, impl=str(impl),
+                           expected=str(spec), case_family=family),
+                      site='stats.%s[%s]' % (name, family))
+        return False
+    if gen is not None and not _cmp_val(impl, gen):
+        ctx.violation('correspondence', 'generated model of %s disagrees with the implementation on %s, m=%s: %s vs %s'
+                      % (name, short, m, gen, impl), dict(func=name, counts=v, m=list(m), impl=str(impl), model=str(gen)),
+                      site='stats.' + name)
+    return True
+
+
+def _wide_counts(ctx, prs, base_vecs):
+    rng = ctx.rng
+    pending = bool(os.environ.get('PV_PENDING_C16'))
+    M_VALUES = [('int', 1), ('int', 2), ('int', 3), ('int', 10), ('int', 1000), ('int', 10 ** 6), ('float', 2), ('float', 7),
+                ('np64', 4)]
+    # -- vectors: a sample of the exhaustive grid, typical magnitudes, magnitudes around the integer-type limits
+    vecs = rng.sample(base_vecs, 40 if ctx.quick else 400)
+    for _ in range(60 if ctx.quick else 1500):
+        n = rng.randint(1, 8)
+        top = rng.choice([15, 15, 127, 181, 255, 46340, 65535, 10 ** 6, 2 ** 31 - 1, 3 * 10 ** 9])
+        vecs.append([rng.randint(0, top) if rng.random() < .8 else 0 for _ in range(n)])
+    # boundary vectors: the largest f1 / f2 for which every intermediate still fits the integer type, and one more
+    for hi in (255, 2 ** 15 - 1, 2 ** 31 - 1, 2 ** 63 - 1):
+        r = math.isqrt(hi)
+        for f1 in (r, r + 1):
+            for f2 in (0, 1, 3, hi // 2, min(hi, hi // 2 + 1)):
+                vecs.append([f1, f2, 2])
+                vecs.append([f1])
+    vecs += [[0], [1], [2], [7], [0, 0], [1, 0], [0, 1], [2, 1], [3, 2, 1]]
+    reqs = []
+    for v in vecs:
+        reqs += [('api_spec_chao1', [v]), ('api_spec_chao2', [v]), ('api_spec_var_chao', [v])]
+    outs = ctx.oracle.run_parallel(reqs)
+    nskip = 0
+    for k, v in enumerate(vecs):
+        specs = dict(zip(('api_spec_chao1', 'api_spec_chao2', 'api_spec_var_chao'), outs[3 * k:3 * k + 3]))
+        conts = _COUNT_CONTS if (k % 4 == 0 or len(v) < 4 or not ctx.quick) else rng.sample(_COUNT_CONTS, 4)
+        for cont in conts:
+            fit = _count_fit(v, cont)
+            if fit == 'no':
+                nskip += 1
+                continue
+            if fit == 'wraps':
+                # POSSIBLE DEFECT (NOTES.md): narrow / huge integer counts make f1**2, f1*(f1-1) or 2*f2 wrap around
+                ctx.count('counts:wraps-in-%s%s' % (cont, '' if pending else ' (not run: PV_PENDING_C16)'))
+                if not pending:
+                    continue
+            else:
+                ctx.count('counts:container=%s' % cont)
+            m = M_VALUES[(k + len(cont)) % len(M_VALUES)]
+            for name, (sp, _) in _COUNT_FUNCS.items():
+                if not _check_count(ctx, prs, name, v, cont, m, 'pos', specs[sp],
+                                    'integer-wraparound' if fit == 'wraps' else 'containers'):
+                    break
+        if ctx.nprop() > 8:
+            return
+    ctx.count('counts:container cannot hold the vector (skipped)', nskip)
+
+    # -- m: the closed forms of chao2 / var_chao2 do not depend on the number of replicates; positional and keyword
+    mv = rng.sample(base_vecs, 25 if ctx.quick else 250) + [[3, 2, 1], [5, 0, 2], [4], [0, 3], [7, 1]]
+    reqs = []
+    for v in mv:
+        reqs += [('api_spec_chao2', [v]), ('api_spec_var_chao', [v]), ('api_spec_chao1', [v])]
+        for m in M_VALUES:
+            reqs += [('api_gen_chao2', [v, Fraction(m[1])]), ('api_gen_var_chao2', [v, Fraction(m[1])])]
+    outs = ctx.oracle.run_parallel(reqs)
+    step = 3 + 2 * len(M_VALUES)
+    for k, v in enumerate(mv):
+        s2, sv, s1 = outs[step * k:step * k + 3]
+        for j, m in enumerate(M_VALUES):
+            g2, gv = outs[step * k + 3 + 2 * j:step * k + 5 + 2 * j]
+            style = ('pos', 'kw', 'kwm')[(k + j) % 3]
+            ctx.count('counts:m=%s' % (m[1] if m[0] == 'int' else '%s(%s)' % m))
+            ctx.count('counts:call-style=%s' % style)
+            cont = ('list', 'nd_int64', 'tuple')[(k + j) % 3]
+            _check_count(ctx, prs, 'chao2', v, cont, m, style, s2, 'replicates', gen=g2)
+            _check_count(ctx, prs, 'var_chao2', v, cont, m, style, sv, 'replicates', gen=gv)
+        _check_count(ctx, prs, 'chao1', v, 'list', M_VALUES[0], 'kw', s1, 'keyword')
+        _check_count(ctx, prs, 'var_chao1', v, 'nd_int64', M_VALUES[0], 'kw', sv, 'keyword')
+        if ctx.nprop() > 8:
+            return
+
+    # -- long vectors (lengths around 127/128, 255/256, 1000, 2**15)
+    lens = [127, 128, 255, 256, 1000, 2 ** 15] if ctx.quick else [127, 128, 129, 255, 256, 257, 1000, 4096, 2 ** 15, 2 ** 15 + 1, 10 ** 5]
+    lv = []
+    for n in lens:
+        lv.append([rng.randint(0, 9) for _ in range(n)])
+        lv.append([rng.randint(1, 50), 0] + [rng.randint(0, 1000) for _ in range(n - 2)])
+    reqs = []
+    for v in lv:
+        reqs += [('api_spec_chao1', [v]), ('api_spec_chao2', [v]), ('api_spec_var_chao', [v])]
+    outs = ctx.oracle.run_parallel(reqs)
+    for k, v in enumerate(lv):
+        specs = dict(zip(('api_spec_chao1', 'api_spec_chao2', 'api_spec_var_chao'), outs[3 * k:3 * k + 3]))
+        ctx.count('counts:len=%d' % len(v))
+        for cont in ('list', 'nd_int64', 'nd_int32', 'series_int'):
+            for name, (sp, _) in _COUNT_FUNCS.items():
+                _check_count(ctx, prs, name, v, cont, ('int', 5), 'pos', specs[sp], 'long')
+
+    # -- one preallocated array refilled in place between calls; the same object passed again
+    buf = np.zeros(4, dtype=np.int64)
+    seq = [rng.choice(base_vecs) for _ in range(30 if ctx.quick else 300)]
+    seq = [v for v in seq if len(v) == 4] + [[3, 2, 1, 0], [3, 0, 1, 0], [0, 0, 0, 0], [6, 2, 0, 1], [6, 2, 0, 1]]
+    reqs = []
+    for v in seq:
+        reqs += [('api_spec_chao1', [v]), ('api_spec_chao2', [v]), ('api_spec_var_chao', [v])]
+    outs = ctx.oracle.run_parallel(reqs)
+    for k, v in enumerate(seq):
+        specs = dict(zip(('api_spec_chao1', 'api_spec_chao2', 'api_spec_var_chao'), outs[3 * k:3 * k + 3]))
+        buf[:] = v
+        ctx.count('counts:refilled-in-place')
+        for rep in range(2):
+            for name, (sp, _) in _COUNT_FUNCS.items():
+                _check_count(ctx, prs, name, v, 'nd_int64 (one buffer refilled in place, call %d)' % (rep + 1), ('int', 5), 'pos',
+                             specs[sp], 'refill', arg=buf)
+        if buf.tolist() != list(v):
+            ctx.note('count buffer changed by a call (C20 territory): %s -> %s' % (v, buf.tolist()))
+            buf = np.zeros(4, dtype=np.int64)
+
+
+# ---- set measures: element kinds, missing-value markers, containers --------------------------------------------------
+# token -> interchangeable Python spellings (one token = one class under ==/hash; checked at start-up)
+_WK = {
+    'num': {t: [t] for t in range(1, 9)},
+    'str': {t: ['abcdefgh'[t - 1]] for t in range(1, 9)},
+    'tuple': {1: [('a', 'b')], 2: [('b', 'a')], 3: [('a', 'a')], 4: [('b', 'b')], 5: [('a', 'c')], 6: [('a',)], 7: [('a', 'b', 'a')],
+              8: [('ab',)]},
+    'mixed': {1: [1, 1.0], 2: ['1'], 3: [2, 2.0], 4: ['2'], 5: [('1',)], 6: [b'1'], 7: ['1.0'], 8: [(1,)]},
+    # empty / falsy / look-alike strings: '' and 'nan' are elements, not missing values; case and blanks matter
+    'strx': {1: [''], 2: ['a'], 3: ['A'], 4: ['a '], 5: ['nan'], 6: ['None'], 7: [' a'], 8: ['<NA>']},
+    # falsy elements: 0 == 0.0 == False == -0.0 is one element; '', (), b'', frozenset() are four more
+    'falsy': {1: [0, 0.0, False, -0.0], 2: [''], 3: [()], 4: [1, True, 1.0], 5: [b''], 6: [frozenset()], 7: ['0'], 8: [(0,)]},
+    # CDR3-like strings that differ in one end, in length by one, or in case only
+    'cdr3': {1: ['CASSLGQAYEQYF'], 2: ['CASSLGQAYEQYV'], 3: ['AASSLGQAYEQYF'], 4: ['CASSLGQAYEQY'], 5: ['CASSLGQAYEQYFF'],
+             6: ['casslgqayeqyf'], 7: ['CASSLGQAYEQYF '], 8: ['CASSLGAQYEQYF']},
+    # numpy scalars next to the equal Python objects
+    'npscalar': {1: [1, np.int64(1), np.float64(1.0), np.int8(1)], 2: ['a', np.str_('a')], 3: [2, np.int32(2), np.uint8(2)],
+                 4: ['b', np.str_('b')], 5: [0.5, np.float64(0.5), np.float32(0.5)], 6: [np.str_('ab'), 'ab'], 7: [300, np.int16(300)],
+                 8: [-1, np.int64(-1), -1.0]},
+}
+_STRLIKE = ('str', 'strx', 'cdr3')
+_NA = {'None': lambda: None, 'nan': lambda: np.nan, 'pdNA': lambda: pd.NA, 'fnan': lambda: float('nan'),
+       'npnan': lambda: np.float64('nan'), 'NaT': lambda: pd.NaT}
+_NA_MIX = ['None', 'nan', 'pdNA', 'fnan', 'npnan', 'NaT']
+_NA_KINDS = list(_NA) + ['mix']
+
+
+def _selfcheck_kinds():
+    for kd, table in _WK.items():
+        flat = [(t, x) for t, xs in table.items() for x in xs]
+        for (t1, x1), (t2, x2) in itertools.product(flat, flat):
+            assert (t1 == t2) == (x1 == x2 and hash(x1) == hash(x2)), (kd, x1, x2)
+
+
+def _vals(tokens, spec):
+    kind, na, salt = spec['kind'], spec.get('na', 'None'), spec.get('salt', 0)
+    out = []
+    for i, t in enumerate(tokens):
+        if t is None:
+            out.append(_NA[_NA_MIX[(i + salt) % len(_NA_MIX)] if na == 'mix' else na]())
+        else:
+            sp = _WK[kind][t]
+            out.append(sp[(i + salt) % len(sp)])
+    return out
+
+
+def _obj_array(vals):
+    a = np.empty(len(vals), dtype=object)
+    for i, x in enumerate(vals):
+        a[i] = x
+    return a
+
+
+def _mk(tokens, spec):
+    """A NEW collection object for the token list, fully determined by (tokens, spec)."""
+    cont, kind = spec['cont'], spec['kind']
+    vals = _vals(tokens, spec)
+    if cont == 'list':
+        return vals
+    if cont == 'tuple':
+        return tuple(vals)
+    if cont == 'set':
+        return set(vals)
+    if cont == 'frozenset':
+        return frozenset(vals)
+    if cont == 'gen':
+        return (x for x in vals)
+    if cont == 'iter':
+        return iter(vals)
+    if cont == 'dict':
+        return dict.fromkeys(vals, 0)
+    if cont == 'dictkeys':
+        return dict.fromkeys(vals, 0).keys()
+    if cont == 'ndarray_obj':
+        return _obj_array(vals)
+    if cont == 'ndarray':                   # native dtype: int64 / float64 (NaN = missing) for numbers, <U for strings
+        if kind == 'num':
+            return (np.array([np.nan if t is None else float(t) for t in tokens], dtype=float) if None in tokens
+                    else np.array(vals, dtype=np.int64))
+        assert kind in _STRLIKE and None not in tokens
+        return np.array(vals, dtype=str)
+    if cont == 'index':
+        return pd.Index(_obj_array(vals), dtype=object, tupleize_cols=False)
+    if cont == 'chars':                     # a string is an iterable of its characters
+        assert kind == 'str' and None not in tokens
+        return ''.join(vals)
+    if cont == 'series':
+        dt, n = spec.get('dtype', 'object'), len(vals)
+        if dt == 'object':
+            s = pd.Series(_obj_array(vals), dtype=object)
+        elif dt == 'infer':                 # what pd.Series(list) makes of it (pandas 3: str dtype for strings)
+            s = pd.Series(vals) if vals else pd.Series(vals, dtype=object)
+        elif dt == 'float':
+            s = pd.Series([np.nan if t is None else float(t) for t in tokens], dtype='float64')
+        elif dt == 'int64':
+            s = pd.Series([int(t) for t in tokens], dtype='int64')
+        elif dt == 'Int64':
+            s = pd.Series([pd.NA if t is None else int(t) for t in tokens], dtype='Int64')
+        elif dt == 'string':
+            s = pd.Series([pd.NA if t is None else v for t, v in zip(tokens, vals)], dtype='string')
+        elif dt == 'category':
+            s = pd.Series([np.nan if t is None else v for t, v in zip(tokens, vals)], dtype='category')
+        else:
+            raise ValueError(dt)
+        ix = spec.get('idx', 'default')
+        if ix == 'shift':
+            s.index = range(10, 10 + n)
+        elif ix == 'rev':
+            s.index = range(n - 1, -1, -1)
+        elif ix == 'str':
+            s.index = ['r%d' % i for i in range(n)]
+        elif ix == 'dup':
+            s.index = [0] * n
+        elif ix == 'multi':
+            s.index = pd.MultiIndex.from_arrays([[0] * n, list(range(n))])
+        elif ix == 'named':
+            s.name = 'CDR3B'
+            s.index.name = 'clone'
+        return s
+    raise ValueError(cont)
+
+
+def _kinds_of(v):
+    """Element kinds a container variant can hold."""
+    c, dt = v['cont'], v.get('dtype')
+    if c == 'chars':
+        return ['str']
+    if c == 'ndarray':
+        return ['num'] + list(_STRLIKE)
+    if c == 'series' and dt in ('float', 'int64', 'Int64'):
+        return ['num']
+    if c == 'series' and dt == 'string':
+        return list(_STRLIKE)
+    if c == 'series' and dt == 'category':
+        return ['num'] + list(_STRLIKE)
+    return list(_WK)
+
+
+def _holds_na(v, kind):
+    c, dt = v['cont'], v.get('dtype')
+    return not (c == 'chars' or (c == 'ndarray' and kind != 'num') or (c == 'series' and dt == 'int64'))
+
+
+_ONE_SHOT = ('gen', 'iter')
+_VARIANTS = ([dict(cont=c) for c in ('list', 'tuple', 'set', 'frozenset', 'gen', 'iter', 'dict', 'dictkeys', 'ndarray_obj',
+                                     'ndarray', 'index', 'chars')] +
+             [dict(cont='series', dtype=d, idx=i) for d, i in
+              [('object', 'default'), ('object', 'shift'), ('infer', 'rev'), ('infer', 'str'), ('object', 'dup'), ('float', 'shift'),
+               ('Int64', 'default'), ('string', 'rev'), ('category', 'default'), ('int64', 'str'), ('infer', 'named'),
+               ('object', 'multi'), ('float', 'default'), ('string', 'dup'), ('category', 'shift')]])
+
+
+def _vname(v):
+    return v['cont'] if v['cont'] != 'series' else 'series[%s,%s index]' % (v.get('dtype', 'object'), v.get('idx', 'default'))
+
+
+def _show(x):
+    if isinstance(x, pd.Series):
+        return 'Series(%r, dtype=%s, index=%r)' % (x.tolist(), x.dtype, x.index.tolist())
+    if isinstance(x, np.ndarray):
+        return 'array(%r, dtype=%s)' % (x.tolist(), x.dtype)
+    if isinstance(x, pd.Index):
+        return 'Index(%r)' % (x.tolist(),)
+    if type(x).__name__ in ('generator', 'list_iterator'):
+        return '<%s>' % type(x).__name__
+    r = repr(x)
+    return r if len(r) < 400 else r[:400] + '...'
+
+
+_SET_FUNCS = {'jaccard_index': 'api_jaccard', 'overlap': 'api_overlap', 'overlap_coefficient': 'api_overlap_coefficient'}
+
+
+def _set_ok(name, impl, model):
+    if name == 'jaccard_index':
+        if model is None:                   # empty union: an error or NaN, the ratio is undefined
+            return impl[0] == 'exc' or (impl[0] == 'ok' and _isnan(impl[1]))
+        return impl[0] == 'ok' and _isnum(impl[1]) and close(float(impl[1]), model)
+    if name == 'overlap':
+        return impl[0] == 'ok' and _is_count(impl[1], model)
+    return impl[0] == 'ok' and _cmp_val(impl, model)
+
+
+def _isnum(x):
+    return isinstance(x, (int, float, np.integer, np.floating, Fraction)) and not isinstance(x, bool)
+
+
+def _isnan(x):
+    try:
+        return math.isnan(float(x))
+    except Exception:
+        return False
+
+
+def _same(i1, i2):
+    if i1[0] != i2[0]:
+        return False
+    if i1[0] == 'exc':
+        return True
+    return _isnum(i1[1]) and _isnum(i2[1]) and (i1[1] == i2[1] or (_isnan(i1[1]) and _isnan(i2[1])))
+
+
+def _jtokens(tokens, spec):
+    """jaccard_index documents the removal of missing values for Series only: other containers get the tokens without them."""
+    return tokens if spec['cont'] == 'series' else [t for t in tokens if t is not None]
+
+
+def _call_set(prs, name, A, sa, B, sb, style='pos'):
+    f = getattr(prs, name)
+    if name == 'jaccard_index':
+        A, B = _jtokens(A, sa), _jtokens(B, sb)
+    a, b = _mk(A, sa), _mk(B, sb)
+    sh = (_show(a), _show(b))
+    if style == 'kw':
+        return call_impl(f, A=a, B=b), sh
+    if style == 'kwB':
+        return call_impl(f, a, B=b), sh
+    return call_impl(f, a, b), sh
+
+
+def _check_sets(ctx, prs, A, sa, B, sb, models, family, style='pos', nontriv=None):
+    """All three measures on (A, B) realised by the specs sa / sb, and on (B, A).  models = (jaccard, overlap, coefficient)."""
+    if nontriv is None:
+        xa, xb = set(A) - {None}, set(B) - {None}
+        nontriv = bool(xa & xb) and xa != xb
+    ok = True
+    for name, model in zip(_SET_FUNCS, models):
+        impl, sh = _call_set(prs, name, A, sa, B, sb, style)
+        ctx.case(nontrivial_key=(name, family, tuple(A), tuple(B), repr(sorted(sa.items())), repr(sorted(sb.items()))) if nontriv else None)
+        rec = dict(family='sets', func=name, A=A, B=B, spec_a=sa, spec_b=sb, style=style, a=sh[0], b=sh[1], case_family=family)
+        if not _set_ok(name, impl, model):
+            ctx.violation('property', '%s(%s, %s) = %s, expected %s  [tokens %s as %s, %s as %s, %s elements, family %s]' %
+                          (name, sh[0], sh[1], impl, model, A, _vname(sa), B, _vname(sb), sa['kind'], family),
+                          dict(rec, impl=str(impl), expected=str(model)), site='stats.%s[%s]' % (name, family))
+            ok = False
+            continue
+        impl2, _ = _call_set(prs, name, B, sb, A, sa, style)
+        if not _same(impl, impl2):
+            ctx.violation('property', '%s not symmetric on %s, %s: %s vs %s  [family %s]' % (name, sh[0], sh[1], impl, impl2, family),
+                          dict(rec, symmetric=True, impl=str(impl), swapped=str(impl2)), site='stats.%s[%s]' % (name, family))
+            ok = False
+    return ok
+
+
+def _rand_tokens(rng, nmax, na_ok, pool=8, p_na=.25):
+    n = rng.choice([0, 1, 1, 2, 3, 4, 5, nmax])
+    lo = rng.randint(1, max(1, pool - 3))
+    sub = list(range(lo, min(pool, lo + rng.randint(1, 4)) + 1))
+    return [None if (na_ok and rng.random() < p_na) else rng.choice(sub) for _ in range(n)]
+
+
+def _models(ctx, pairs):
+    reqs = []
+    for A, B in pairs:
+        reqs += [('api_jaccard', [A, B]), ('api_overlap', [A, B]), ('api_overlap_coefficient', [A, B])]
+    outs = ctx.oracle.run_parallel(reqs)
+    return [tuple(outs[3 * k:3 * k + 3]) for k in range(len(pairs))]
+
+
+def _wide_sets(ctx, prs):
+    rng = ctx.rng
+    _selfcheck_kinds()
+    jobs = []          # (A, sa, B, sb, family, style)
+
+    # -- 1. every ordered pair of container variants
+    reps = 1 if ctx.quick else 6
+    for va, vb in itertools.product(_VARIANTS, _VARIANTS):
+        common = [k for k in _kinds_of(va) if k in _kinds_of(vb)]
+        if not common:
+            ctx.count('sets:container pair without a common element kind (skipped)')
+            continue
+        for _ in range(reps):
+            kind = rng.choice(common)
+            sa = dict(va, kind=kind, na=rng.choice(_NA_KINDS), salt=rng.randint(0, 5))
+            sb = dict(vb, kind=kind, na=rng.choice(_NA_KINDS), salt=rng.randint(0, 5))
+            A = _rand_tokens(rng, 7, _holds_na(va, kind))
+            B = _rand_tokens(rng, 7, _holds_na(vb, kind))
+            jobs.append((A, sa, B, sb, 'container-pairs', 'pos'))
+
+    # -- 2. every element kind with every missing-value marker, in lists / sets / Series / object arrays
+    for kind, na in itertools.product(_WK, _NA_KINDS):
+        for ca, cb in [('list', 'list'), ('series', 'list'), ('set', 'series'), ('ndarray_obj', 'tuple')][:(2 if ctx.quick else 4)]:
+            for _ in range(1 if ctx.quick else 4):
+                sa = dict(cont=ca, kind=kind, na=na, salt=rng.randint(0, 5), dtype=rng.choice(['object', 'infer']), idx='default')
+                sb = dict(cont=cb, kind=kind, na=na, salt=rng.randint(0, 5), dtype=rng.choice(['object', 'infer']), idx='rev')
+                jobs.append((_rand_tokens(rng, 8, True, p_na=.35), sa, _rand_tokens(rng, 8, True, p_na=.35), sb, 'kinds-x-markers', 'pos'))
+
+    # -- 3. keyword calls
+    for _ in range(12 if ctx.quick else 100):
+        kind = rng.choice(list(_WK))
+        sa = dict(cont=rng.choice(['list', 'series', 'set']), kind=kind, na='None', salt=0, dtype='object', idx='default')
+        sb = dict(cont=rng.choice(['list', 'series', 'tuple']), kind=kind, na='nan', salt=1, dtype='object', idx='shift')
+        jobs.append((_rand_tokens(rng, 6, True), sa, _rand_tokens(rng, 6, True), sb, 'keywords', rng.choice(['kw', 'kwB'])))
+
+    mods = _models(ctx, [(j[0], j[2]) for j in jobs])
+    for (A, sa, B, sb, family, style), m in zip(jobs, mods):
+        ctx.count('sets:%s' % family)
+        if family == 'container-pairs':
+            ctx.count('sets:container=%s' % _vname(sa))
+        if family != 'keywords':
+            ctx.count('sets:elements=%s' % sa['kind'])
+            if None in A:
+                ctx.count('sets:missing_marker=%s' % sa['na'])
+        else:
+            ctx.count('sets:call-style=%s' % style)
+        _check_sets(ctx, prs, A, sa, B, sb, m, family, style)
+        if ctx.nprop() > 8:
+            return
+
+    # -- 4. one object as both arguments; the same objects again; a collection changed in place between two calls
+    jobs = []
+    for v in _VARIANTS:
+        if v['cont'] in _ONE_SHOT:
+            continue
+        for _ in range(2 if ctx.quick else 10):
+            kind = rng.choice(_kinds_of(v))
+            s = dict(v, kind=kind, na=rng.choice(_NA_KINDS), salt=rng.randint(0, 5))
+            A = _rand_tokens(rng, 6, _holds_na(v, kind))
+            B = _rand_tokens(rng, 6, _holds_na(v, kind))
+            jobs.append((A, B, s))
+    mods = _models(ctx, [p for A, B, s in jobs for p in ((A, A), (A, B), (B, B))])
+    for k, (A, B, s) in enumerate(jobs):
+        _sameobj_case(ctx, prs, A, B, s, mods[3 * k:3 * k + 3])
+        if ctx.nprop() > 8:
+            return
+
+    # in place: a list / set / object array / Series receives other content between two calls
+    jobs = []
+    for cont in ('list', 'set', 'ndarray_obj', 'series', 'dict'):
+        for _ in range(4 if ctx.quick else 30):
+            kind = rng.choice(list(_WK))
+            s = dict(cont=cont, kind=kind, na=rng.choice(_NA_KINDS), salt=rng.randint(0, 5), dtype='object', idx='shift')
+            n = rng.randint(1, 6)
+            A1 = [rng.choice([None, 1, 2, 3, 4]) for _ in range(n)]
+            A2 = [rng.choice([None, 3, 4, 5, 6]) for _ in range(n)]
+            B = _rand_tokens(rng, 6, True)
+            jobs.append((A1, A2, B, s))
+    mods = _models(ctx, [p for A1, A2, B, s in jobs for p in ((A1, B), (A2, B))])
+    for k, (A1, A2, B, s) in enumerate(jobs):
+        _inplace_case(ctx, prs, A1, A2, B, s, mods[2 * k:2 * k + 2])
+        if ctx.nprop() > 8:
+            return
+
+    # -- 5. large collections: expected sizes known by construction (c common elements, a only in A, b only in B)
+    sizes = [(1, 0, 0), (0, 1, 1), (127, 1, 2), (128, 3, 0), (255, 0, 9), (256, 256, 256), (1000, 500, 0), (0, 1000, 1000),
+             (700, 300, 1300), (2 ** 15, 10, 3), (3, 2 ** 15, 2 ** 15 + 1)]
+    if not ctx.quick:
+        sizes += [(2 ** 16 + 1, 2 ** 16, 7), (10 ** 5, 10 ** 5, 10 ** 5), (1, 2 ** 17, 0), (999, 1, 10 ** 5)]
+    for (c, na_, nb_), elem, cont in itertools.product(sizes, ('int', 'str', 'pair'), ('list', 'series', 'set', 'ndarray', 'gen')):
+        if ctx.quick and (c + na_ + nb_) > 5000 and rng.random() < .5:
+            continue
+        seed = rng.randint(0, 10 ** 9)
+        _large_case(ctx, prs, dict(c=c, a=na_, b=nb_, elem=elem, cont=cont, seed=seed, dups=rng.choice([0, 1, 2]),
+                                   nas=rng.choice([0, 0, 3, 50])))
+        if ctx.nprop() > 8:
+            return
+
+
+def _sameobj_case(ctx, prs, A, B, s, mods=None):
+    """One object as both arguments, then f(a, b) twice on the same objects, then f(b, b)."""
+    maa, mab, mbb = mods or _models(ctx, [(A, A), (A, B), (B, B)])
+    for name, m_aa, m_ab, m_bb in zip(_SET_FUNCS, maa, mab, mbb):
+        f = getattr(prs, name)
+        TA, TB = (_jtokens(A, s), _jtokens(B, s)) if name == 'jaccard_index' else (A, B)
+        a, b = _mk(TA, s), _mk(TB, s)
+        rec = dict(family='sets-sameobj', func=name, A=A, B=B, spec=s, a=_show(a), b=_show(b))
+        for what, x, y, model in [('f(a, a) with one object as both arguments', a, a, m_aa), ('f(a, b)', a, b, m_ab),
+                                  ('f(a, b) again on the same objects', a, b, m_ab), ('f(b, b) after f(a, b)', b, b, m_bb)]:
+            impl = call_impl(f, x, y)
+            ctx.case(nontrivial_key=(name, 'sameobj', what, tuple(A), tuple(B), _vname(s), s['kind']) if (set(A) - {None}) else None)
+            ctx.count('sets:same-object / repeated call')
+            if not _set_ok(name, impl, model):
+                ctx.violation('property', '%s: %s = %s, expected %s  [a = %s, b = %s]' % (name, what, impl, model, _show(a), _show(b)),
+                              dict(rec, step=what, impl=str(impl), expected=str(model)), site='stats.%s[same-object]' % name)
+                break
+
+
+def _inplace_case(ctx, prs, A1, A2, B, s, mods=None):
+    """f(a, b); the content of a is replaced in place (tokens A1 -> A2, same length); f(a, b) again."""
+    mm1, mm2 = mods or _models(ctx, [(A1, B), (A2, B)])
+    sb = dict(s, cont='list')
+    for name, x1, x2 in zip(_SET_FUNCS, mm1, mm2):
+        f = getattr(prs, name)
+        if name == 'jaccard_index' and s['cont'] != 'series' and (None in A1 or None in A2 or None in B):
+            continue                    # jaccard_index: missing values only where their removal is documented (Series)
+        a, b = _mk(A1, s), _mk(B, sb if name != 'jaccard_index' or None not in B else dict(sb, cont='series'))
+        if s['cont'] == 'series':       # a Series over a preallocated object buffer that the caller refills in place
+            buf = _obj_array(_vals(A1, s))
+            a = pd.Series(buf, dtype=object, copy=False)
+            a.index = range(10, 10 + len(buf))
+        first = call_impl(f, a, b)
+        new = _vals(A2, s)
+        if s['cont'] == 'list':
+            a[:] = new
+        elif s['cont'] == 'set':
+            a.clear()
+            a.update(new)
+        elif s['cont'] == 'dict':
+            a.clear()
+            a.update(dict.fromkeys(new, 1))
+        elif s['cont'] == 'ndarray_obj':
+            for i, x in enumerate(new):
+                a[i] = x
+        else:
+            for i, x in enumerate(new):
+                buf[i] = x
+            if [type(x) for x in a.tolist()] != [type(x) for x in new]:      # the Series does not share the buffer: nothing to test
+                ctx.count('sets:changed-in-place(series) buffer not shared (skipped)')
+                continue
+        second = call_impl(f, a, b)
+        ctx.count('sets:changed-in-place(%s)' % s['cont'])
+        for what, impl, model, T in (('first call', first, x1, A1), ('call after the first argument was changed in place', second, x2, A2)):
+            ctx.case(nontrivial_key=(name, 'inplace', what, tuple(T), tuple(B), s['cont'], s['kind']))
+            if not _set_ok(name, impl, model):
+                ctx.violation('property', '%s, %s: %s, expected %s  [first argument %s (tokens %s then %s, %s elements as %s), second %s]' %
+                              (name, what, impl, model, _show(a), A1, A2, s['kind'], s['cont'], _show(b)),
+                              dict(family='sets-inplace', func=name, A1=A1, A2=A2, B=B, spec=s, impl=str(impl), expected=str(model), step=what),
+                              site='stats.%s[in-place]' % name)
+
+
+def _large_build(r):
+    """Two collections with exactly c common elements, a elements only in A and b only in B (so |A n B| = c,
+    |A u B| = a + b + c), realised with duplicates, shuffled, optionally with missing values; the objects of A and
+    of B are built separately (equal, never identical).  Returns for each side a maker of the collection handed to
+    overlap / overlap_coefficient and one for jaccard_index (missing values only where their removal is documented)."""
+    rnd = random.Random(r['seed'])
+    c, a, b, elem, cont = r['c'], r['a'], r['b'], r['elem'], r['cont']
+
+    def el(i):
+        if elem == 'int':
+            return int(str(i * 7 + 1000))
+        if elem == 'str':
+            return 'CASS%dF' % i
+        return ('CAV%d' % (i % 97), 'CASS%dF' % i)       # paired chains; the alpha chain alone repeats
+
+    def side(ids):
+        ids = list(ids)
+        ids += [rnd.choice(ids) for _ in range(r['dups'] * len(ids) // 2)] if ids else []
+        rnd.shuffle(ids)
+        jac = [el(i) for i in ids]
+        vals = list(jac)
+        for _ in range(r['nas']):
+            vals.insert(rnd.randint(0, len(vals)), None if elem != 'int' else np.nan)
+        if cont == 'list':
+            return (lambda: vals), (lambda: jac)
+        if cont == 'set':
+            sv, sj = set(vals), set(jac)
+            return (lambda: sv), (lambda: sj)
+        if cont == 'gen':                                   # one-shot: a new generator for every call
+            return (lambda: (x for x in vals)), (lambda: (x for x in jac))
+        if cont == 'ndarray':
+            if elem == 'int':
+                av, aj = np.array(vals, dtype=float if r['nas'] else np.int64), np.array(jac, dtype=np.int64)
+            else:
+                av, aj = _obj_array(vals), _obj_array(jac)
+            return (lambda: av), (lambda: aj)
+        ser = pd.Series(_obj_array(vals), dtype=object) if elem != 'int' else pd.Series(vals, dtype=float if r['nas'] else 'int64')
+        ser.index = range(5, 5 + len(vals))
+        return (lambda: ser), (lambda: ser)
+    A = side(list(range(c)) + list(range(c, c + a)))
+    B = side(list(range(c)) + list(range(c + a, c + a + b)))
+    return A, B
+
+
+def _large_case(ctx, prs, r):
+    c, a, b = r['c'], r['a'], r['b']
+    exp = {'jaccard_index': Fraction(c, a + b + c), 'overlap': c,
+           'overlap_coefficient': (0, Fraction(c, min(a + c, b + c))) if min(a + c, b + c) else (1, None)}
+    ctx.count('sets:large(%s,%s)' % (r['elem'], r['cont']))
+    ctx.count('sets:large size>=%d' % (10 ** (len(str(a + b + c)) - 1)))
+    (A, Aj), (B, Bj) = _large_build(r)       # the same objects go through all six calls (generators are made anew)
+    for name in _SET_FUNCS:
+        for swap in (False, True):
+            x, y = (Aj, Bj) if name == 'jaccard_index' else (A, B)
+            if swap:
+                x, y = y, x
+            impl = call_impl(getattr(prs, name), x(), y())
+            ctx.case(nontrivial_key=(name, 'large', c, a, b, r['elem'], r['cont'], swap) if c and (a or b) else None)
+            if not _set_ok(name, impl, exp[name]):
+                ctx.violation('property', '%s on collections built with %d common, %d + %d own elements (%s elements as %s, %s duplicates, '
+                              '%d missing values%s) = %s, expected %s' % (name, c, a, b, r['elem'], r['cont'], r['dups'], r['nas'],
+                                                                         ', arguments swapped' if swap else '', impl, exp[name]),
+                              dict(r, family='sets-large', func=name, swapped=swap, impl=str(impl), expected=str(exp[name])),
+                              site='stats.%s[large]' % name)
+                return
 
 
 def run(ctx):
@@ -28,9 +743,18 @@ def run(ctx):
                 'collections over a 5-token pool as list/tuple/set/Series with duplicates and missing values, the tokens realised '
                 'as numbers, strings, tuples (paired chains) and mixed str/int/float/tuple items (one token = one class under '
                 'Python ==/hash); '
-                'non-trivial := intersection non-empty and the two element sets differ')
+                'non-trivial := intersection non-empty and the two element sets differ.  Wide families: count vectors as tuple / '
+                'float list / lists of NumPy scalars / int16..uint64, float64, object, strided, read-only arrays / Series, '
+                'magnitudes up to the limit of each integer type, m in {1..10**6, float, np.int64} positional and by keyword, lengths '
+                '127..2**15, one buffer refilled in place; set measures over every ordered pair of 27 container variants (frozenset, '
+                'generator, iterator, dict, dict keys, native and object arrays, Index, a string of characters, Series of seven '
+                'dtypes with shifted / reversed / string / duplicated / multi index), eight element kinds (empty, falsy and '
+                'look-alike strings, CDR3-like strings, NumPy scalars, bytes, frozensets), seven missing-value markers, keyword '
+                'calls, one object as both arguments, repeated calls, a collection changed in place between calls, and collections '
+                'of up to 2**15 (thorough: 10**5) elements with sizes known by construction')
     L, M = (4, 4) if ctx.quick else (5, 6)
     vecs = [list(v) for n in range(1, L + 1) for v in itertools.product(range(M + 1), repeat=n)]
+    nbase = len(vecs)
     for _ in range(200 if ctx.quick else 3000):
         n = rng.randint(1, 30)
         vecs.append([rng.choice([0, 0, 1, 2, 3, 7, 50, 1000, rng.randint(0, 10 ** 6)]) for _ in range(n)])
@@ -144,7 +868,7 @@ def run(ctx):
                 ctx.case(sample=dict(func=name, A=A, B=B, containers=[ca, cb], elements=kind, impl=str(impl), model=str(model))
                          if nontriv and k % 50 == 0 else None,
                          nontrivial_key=(name, tuple(A), tuple(B)) + tag if nontriv else None)
-                ok = (impl[0] == 'ok' and ((name == 'overlap' and int(impl[1]) == model) or
+                ok = (impl[0] == 'ok' and ((name == 'overlap' and _is_count(impl[1], model)) or
                                            (name != 'overlap' and _cmp_val(impl, model))))
                 if not ok:
                     ctx.violation('property', '%s(%s, %s) = %s, expected %s  [tokens %s as %s, %s as %s, %s elements]' %
@@ -182,6 +906,16 @@ def run(ctx):
             ctx.add_vm('api_jaccard', [A, B], mj)
         if ctx.nprop() > 8:
             break
+    # ---- wide families (coverage audit): containers / dtypes / m / long vectors / refilled buffers for the Chao functions,
+    # container variants / element kinds / missing-value markers / same object / in-place change / large sets for the set measures
+    import time
+    t0 = time.time()
+    if ctx.nprop() <= 8:
+        _wide_counts(ctx, prs, vecs[:nbase])
+    t1 = time.time()
+    if ctx.nprop() <= 8:
+        _wide_sets(ctx, prs)
+    ctx.note('wide families: count vectors %.1f s, set measures %.1f s' % (t1 - t0, time.time() - t1))
     ctx.assumptions += ['numpy sum / float64 division within 1e-9 of the exact rational',
                         'pandas Series.dropna and Python set semantics (modelled: set of non-missing values; elements are hashable '
                         'items identified by Python ==/hash)']
@@ -190,10 +924,31 @@ def run(ctx):
 def replay(ctx, obj):
     import pyrepseq as prs
     r = obj['replay']
-    if 'counts' in r:
+    fam = r.get('family')
+    if fam == 'counts':                 # wide count-vector families: container, m and call style are in the record
+        v, name = r['counts'], r['func']
+        spec = ctx.oracle.run([(_COUNT_FUNCS[name][0], [v])])[0]
+        cont = r['container']
+        arg = None
+        if cont.startswith('nd_int64 (one buffer'):
+            arg = np.zeros(len(v), dtype=np.int64)
+            arg[:] = v
+        _check_count(ctx, prs, name, v, cont, tuple(r['m']), r['style'], spec, r.get('case_family', 'replay'), arg=arg)
+    elif fam == 'sets':
+        A, B = r['A'], r['B']
+        _selfcheck_kinds()
+        _check_sets(ctx, prs, A, r['spec_a'], B, r['spec_b'], _models(ctx, [(A, B)])[0], r.get('case_family', 'replay'), r.get('style', 'pos'))
+    elif fam == 'sets-sameobj':
+        _sameobj_case(ctx, prs, r['A'], r['B'], r['spec'])
+    elif fam == 'sets-inplace':
+        _inplace_case(ctx, prs, r['A1'], r['A2'], r['B'], r['spec'])
+    elif fam == 'sets-large':
+        _large_case(ctx, prs, {k: r[k] for k in ('c', 'a', 'b', 'elem', 'cont', 'seed', 'dups', 'nas')})
+    elif 'counts' in r:
         f = getattr(prs, r['func'])
         extra = (5,) if r['func'].endswith('2') else ()
-        impl = call_impl(f, r['counts'], *extra)
+        arg = np.array(r['counts']) if r.get('container') == 'ndarray' else r['counts']
+        impl = call_impl(f, arg, *extra)
         spec = ctx.oracle.run([('api_spec_chao1' if r['func'] == 'chao1' else 'api_spec_chao2' if r['func'] == 'chao2'
                                 else 'api_spec_var_chao', [r['counts']])])[0]
         ctx.case(sample=r)
